@@ -1,0 +1,36 @@
+//! Simulation seam for RSA randomness (verification builds only).
+//!
+//! `rsa` draws through rand_core 0.6's `OsRng`, which sits on getrandom 0.2 and
+//! cannot be redirected on Linux. This look-alike behaves like that `OsRng`
+//! (including the panic in `fill_bytes` when the source fails) but takes its
+//! entropy from getrandom 0.3, which the simulator can own.
+
+use core::num::NonZeroU32;
+
+use rsa::rand_core::{CryptoRng, Error, RngCore, impls};
+
+#[derive(Clone, Copy, Debug, Default)]
+pub struct OsRng;
+
+impl CryptoRng for OsRng {}
+
+impl RngCore for OsRng {
+    fn next_u32(&mut self) -> u32 {
+        impls::next_u32_via_fill(self)
+    }
+
+    fn next_u64(&mut self) -> u64 {
+        impls::next_u64_via_fill(self)
+    }
+
+    fn fill_bytes(&mut self, dest: &mut [u8]) {
+        if let Err(e) = self.try_fill_bytes(dest) {
+            panic!("Error: {}", e);
+        }
+    }
+
+    fn try_fill_bytes(&mut self, dest: &mut [u8]) -> Result<(), Error> {
+        getrandom::fill(dest)
+            .map_err(|_| Error::from(NonZeroU32::new(Error::CUSTOM_START).expect("non-zero")))
+    }
+}
